@@ -69,7 +69,12 @@ def gen_case(rng, **opts):
         args.append("--stop")
     if rng.random() < opts.get("p_dry", 0.12):
         cfg["dry_run"] = True
-        args.append("--dry-run")
+        if rng.random() < 0.3:
+            # the other documented way into a dry run: --steps-catalog ("same as --format=steps.catalog --dry-run ..."), here
+            # together with a formatter of the user's own
+            args.extend(["--steps-catalog", "-f", "plain"])
+        else:
+            args.append("--dry-run")
     if rng.random() < opts.get("p_noskipped", 0.3):
         args.append("--no-skipped")
     if rng.random() < opts.get("p_verbose", 0.12):
